@@ -1341,7 +1341,11 @@ class Canon:
         b = lower_matches(b, self._match_args(module, fn))
         b = lift_ifexp(b)
         b = lift_walrus(b)
-        inl = Inliner(self._lookup(module, cls, fn, set(inline), set(keep), accessors))
+        look = self._lookup(module, cls, fn, set(inline), set(keep), accessors)
+        from .genloop import inline_generator_loops
+        b = inline_generator_loops(b, look)       # loops over unknown generator helpers: the helper's loop with the body at its yield
+        b = lift_walrus(lift_ifexp(b))
+        inl = Inliner(look)
         b = inl.rec(b, inl.depth, (fn.name,))
         b = lift_walrus(lift_ifexp(b))          # conditional expressions returned by inlined helpers
         used = {n.id for s in b for n in ast.walk(s) if isinstance(n, ast.Name)} | {n.func.id for s in b for n in ast.walk(s) if isinstance(n, ast.Call) and isinstance(n.func, ast.Name)}
